@@ -35,9 +35,10 @@ import tempfile
 from typing import Any, Dict, List, Optional, Tuple
 
 from vf.common import chash, short
-from vf.gen.pdfw import Doc, N, Raw, Ref, Stream, font_widths, page_doc
+from vf.gen.pdfw import Doc, N, Name, Raw, Ref, Stream, font_widths, page_doc
 from vf.ref import bmp as refbmp
 from vf.ref import c18enc as enc
+from vf.ref import filters as reffilters  # png_encode / tiff2_encode (written from the PNG and TIFF specifications)
 
 ID = "C18"
 LEVEL = "exploration"
@@ -46,7 +47,9 @@ TECHNIQUE = "generated documents, strict BMP reader, byte equality, differential
 RULE = (
     "image = (kind in gray8/rgb8/gray1/dct) x width 1..67 x height 1..40 x sample pattern (random, structured with all "
     "rows distinct, constant, marker-biased) x filter chain (none, every single lossless filter, pairs of them, DCT "
-    "alone or behind one lossless filter) x container (image XObject with ColorSpace as name or one-element array, "
+    "alone or behind one lossless filter) x predictor on a final Flate/LZW filter (none, TIFF 2 for 8-bit samples, PNG "
+    "10-15 with every row filter type 0-4 uniformly or mixed per row, DecodeParms as dictionary or array with nulls) "
+    "x container (image XObject with ColorSpace as name or one-element array, "
     "Filter as name or array, Width/Height/BitsPerComponent/ColorSpace direct or as indirect references; inline image "
     "with abbreviated/full/mixed keys and names, optionally followed by an image XObject). Sweep shards enumerate every "
     "width 1..67 for each kind deterministically (seed independent), random shards draw the rest. XObject documents: "
@@ -96,12 +99,14 @@ def minimums(tier: str) -> Dict[str, int]:
         "inline_data_containing_EI_not_followed_by_ws": 900, "inline_tail_EOL": 400, "inline_tail_E": 300,
         "preexisting_files_checked": 5000, "name_collisions_resolved": 8000, "output_src_checked": 12000,
         "docs_tagged": 40,
+        "predictor_png_xobj": 1500, "predictor_tiff2_xobj": 300, "predictor_png_inline": 150, "predictor_tiff2_inline": 40,
+        "predictor_png_left_neighbour_rows_colors_ne_columns": 800,
     }
     m = q if tier == "quick" else {k: v * 8 for k, v in q.items()}
     m.update({
         "seen:xobj_widths": 67, "seen:xobj_heights": 40, "seen:bmp_kind_wmod": 3 * 8, "seen:chains": 60,
         "seen:inline_after_EI": 8, "seen:inline_sep": 4, "seen:inline_id_ws": 6, "seen:inline_keystyle": 3,
-        "seen:output_types": 3, "seen:inline_tail": 20,
+        "seen:output_types": 3, "seen:inline_tail": 20, "seen:png_row_filters": 15, "seen:predictor_kinds": 5,
     })
     return m
 
@@ -226,6 +231,44 @@ def pick_chain(rng: random.Random, dct: bool) -> List[str]:
     return [rng.choice(enc.LOSSLESS), rng.choice(enc.LOSSLESS)]
 
 
+def pick_predictor(rng: random.Random, kind: str, h: int, chain: List[str], p_use: float = 0.45) -> Optional[Dict[str, Any]]:
+    """A predictor (ISO 32000-1 7.4.4.4) for the filter that yields the samples: only Flate and LZW take one.
+    PNG: /Predictor 10..15 (the value is only a hint, every row carries its own filter-type byte 0..4);
+    TIFF predictor 2 for 8-bit components."""
+    if kind == "dct" or not chain or chain[-1] not in ("Fl", "LZW") or rng.random() >= p_use:
+        return None
+    if kind != "gray1" and rng.random() < 0.25:
+        return {"p": 2, "ftypes": []}
+    mode = rng.randrange(7)
+    if mode < 5:
+        ft = [mode] * h                      # the same row filter everywhere (also on the first row)
+    else:
+        ft = [rng.randrange(5) for _ in range(h)]
+    return {"p": rng.randint(10, 15), "ftypes": ft}
+
+
+def predicted(img: Dict[str, Any]) -> bytes:
+    """The bytes that go into the filter chain: the samples, through the predictor if there is one."""
+    pr = img.get("pred")
+    if not pr:
+        return img["data"]
+    colors = 3 if img["kind"] == "rgb8" else 1
+    bpc = 1 if img["kind"] == "gray1" else 8
+    if pr["p"] == 2:
+        return reffilters.tiff2_encode(img["data"], colors, img["w"], 8)
+    return reffilters.png_encode(img["data"], colors, img["w"], bpc, pr["ftypes"])
+
+
+def predictor_parms(img: Dict[str, Any]) -> Dict[str, Any]:
+    pr = img["pred"]
+    d: Dict[str, Any] = {"Predictor": pr["p"], "Columns": img["w"]}
+    if img["kind"] == "rgb8":
+        d["Colors"] = 3
+    if img["kind"] == "gray1":
+        d["BitsPerComponent"] = 1
+    return d
+
+
 # --------------------------------------------------------------------------
 # XObject documents
 # --------------------------------------------------------------------------
@@ -261,10 +304,19 @@ def xobj_stream(img: Dict[str, Any], rng: random.Random, doc: Doc) -> Stream:
         else:
             d["Filter"] = names
             forms.append("filter_array")
+    if img.get("pred"):
+        parms = predictor_parms(img)
+        if len(chain) == 1 and rng.random() < 0.6:
+            d["DecodeParms"] = val(parms, "decodeparms", 0.1)
+        else:
+            d["DecodeParms"] = [None] * (len(chain) - 1) + [val(parms, "decodeparms", 0.1)]
+        if isinstance(d["Filter"], Name) and isinstance(d["DecodeParms"], list):
+            d["Filter"] = [d["Filter"]]
+        forms.append("predictor_tiff2" if img["pred"]["p"] == 2 else "predictor_png")
     if rng.random() < 0.2:
         d["Interpolate"] = False
     img["forms"] = forms
-    return Stream(d, enc.encode_chain(chain, img["data"], rng))
+    return Stream(d, enc.encode_chain(chain, predicted(img), rng))
 
 
 def gen_image(rng: random.Random, kind: Optional[str] = None, w: Optional[int] = None, h: Optional[int] = None,
@@ -281,8 +333,9 @@ def gen_image(rng: random.Random, kind: Optional[str] = None, w: Optional[int] =
                 "chain": chain if chain is not None else pick_chain(rng, True), "pattern": "dct"}
     if pattern is None:
         pattern = rng.choice(["random", "random", "struct", "struct", "const0", "const1"])
+    ch = chain if chain is not None else pick_chain(rng, False)
     return {"kind": kind, "w": w, "h": h, "data": make_samples(kind, w, h, pattern, rng),
-            "chain": chain if chain is not None else pick_chain(rng, False), "pattern": pattern}
+            "chain": ch, "pattern": pattern, "pred": pick_predictor(rng, kind, h, ch)}
 
 
 def build_xobj_case(rng: random.Random, images: List[Dict[str, Any]], npages: int, fam: str = "xobj") -> Dict[str, Any]:
@@ -321,7 +374,8 @@ def build_xobj_case(rng: random.Random, images: List[Dict[str, Any]], npages: in
             im = images[idx]
             draws.append({"page": p, "name": name, "kind": im["kind"], "cskind": im.get("cskind", im["kind"]),
                           "w": im["w"], "h": im["h"], "data": im["data"], "bbox": [x, y, x + dw, y + dh],
-                          "chain": im["chain"], "inline": False, "sep": b"", "forms": im.get("forms", [])})
+                          "chain": im["chain"], "inline": False, "sep": b"", "forms": im.get("forms", []),
+                          "pred": im.get("pred")})
         res = {"XObject": {n: refs[i] for n, i in names.items()}}
         pages.append({"content": b"\n".join(ops) + b"\n", "resources": res})
     d = page_doc(pages, doc=doc)
@@ -345,11 +399,11 @@ def build_xobj_case(rng: random.Random, images: List[Dict[str, Any]], npages: in
 # inline image documents
 # --------------------------------------------------------------------------
 KEYS = {"W": "Width", "H": "Height", "CS": "ColorSpace", "BPC": "BitsPerComponent", "F": "Filter",
-        "I": "Interpolate", "D": "Decode", "IM": "ImageMask"}
+        "I": "Interpolate", "D": "Decode", "IM": "ImageMask", "DP": "DecodeParms"}
 
 
 def inline_dict(rng: random.Random, kind: str, cskind: str, w: int, h: int, chain: List[str], keystyle: str,
-                a85_abbrev_first: bool) -> bytes:
+                parms: Optional[Dict[str, Any]] = None) -> bytes:
     def key(k: str) -> bytes:
         full = keystyle == "full" or (keystyle == "mixed" and rng.random() < 0.5)
         return b"/" + (KEYS[k] if full else k).encode()
@@ -371,6 +425,10 @@ def inline_dict(rng: random.Random, kind: str, cskind: str, w: int, h: int, chai
             items.append(fk + b" " + fn[0])
         else:
             items.append(fk + b" [" + b" ".join(fn) + b"]")
+        if parms:
+            # the parameter dictionary of the (single) filter; its own keys have no abbreviations
+            pd = b"<< " + b" ".join(b"/%s %d" % (k.encode(), v) for k, v in parms.items()) + b" >>"
+            items.append(key("DP") + b" " + (pd if items[-1].startswith(fk + b" /") else b"[" + pd + b"]"))
     r = rng.random()
     if r < 0.15:
         items.append(key("I") + b" false")
@@ -386,7 +444,7 @@ def inline_dict(rng: random.Random, kind: str, cskind: str, w: int, h: int, chai
 
 def inline_raw(rng: random.Random, img: Dict[str, Any], sep: bytes) -> Optional[bytes]:
     """The bytes between `ID<ws>` and `<sep>EI`, or None when this encoding would contain an end marker."""
-    raw = enc.encode_chain(img["chain"], img["data"], rng)
+    raw = enc.encode_chain(img["chain"], predicted(img), rng)
     if MARK.search(raw + sep[:1]) or MARK.search(raw):
         return None
     return raw
@@ -429,8 +487,8 @@ def build_inline_case(rng: random.Random, items: List[Dict[str, Any]], fam: str 
     for i, it in enumerate(items):
         img = it["img"]
         cskind = img.get("cskind", img["kind"])
-        first_a85_abbr = False
-        d = inline_dict(rng, img["kind"], cskind, img["w"], img["h"], img["chain"], it["keystyle"], first_a85_abbr)
+        d = inline_dict(rng, img["kind"], cskind, img["w"], img["h"], img["chain"], it["keystyle"],
+                        predictor_parms(img) if img.get("pred") else None)
         if it["id_ws"] == b"\r" and it["raw"][:1] == b"\n":
             it["id_ws"] = b" "  # 'ID CR LF' could be read as ID followed by one end-of-line marker
         body = b"BI " + d + (b" " if rng.random() < 0.7 else b"\n") + b"ID" + it["id_ws"] + it["raw"] + it["sep"] + b"EI" + it["after"]
@@ -469,8 +527,8 @@ def build_inline_case(rng: random.Random, items: List[Dict[str, Any]], fam: str 
         boxes.add(tuple(bbox))
         draws.append({"page": 0, "name": None, "kind": img["kind"], "cskind": cskind, "w": img["w"], "h": img["h"],
                       "data": img["data"], "bbox": bbox, "chain": img["chain"], "inline": True, "sep": it["sep"],
-                      "rawlen": len(it["raw"]), "feat": {"keystyle": it["keystyle"], "id_ws": it["id_ws"], "after": it["after"],
-                                                          "wrap": wrap}})
+                      "rawlen": len(it["raw"]), "pred": img.get("pred"),
+                      "feat": {"keystyle": it["keystyle"], "id_ws": it["id_ws"], "after": it["after"], "wrap": wrap}})
         if tag is None and not last_eof and rng.random() < 0.25:
             # an image XObject painted after the inline image must come out as well
             xim = gen_image(rng, w=rng.randint(1, 20), h=rng.randint(1, 10))
@@ -480,7 +538,7 @@ def build_inline_case(rng: random.Random, items: List[Dict[str, Any]], fam: str 
             xobjs.append((xname, xim))
             draws.append({"page": 0, "name": xname, "kind": xim["kind"], "cskind": xim.get("cskind", xim["kind"]),
                           "w": xim["w"], "h": xim["h"], "data": xim["data"], "bbox": xb, "chain": xim["chain"],
-                          "inline": False, "sep": b"", "forms": ["after_inline"]})
+                          "inline": False, "sep": b"", "forms": ["after_inline"], "pred": xim.get("pred")})
 
     def join(parts: List[bytes]) -> bytes:
         out = bytearray()
@@ -523,6 +581,8 @@ def gen_inline_item(rng: random.Random, *, after: Optional[bytes] = None, sep: O
             w, h = rng.randint(1, 67), rng.randint(1, 12)
         pattern = rng.choice(["random", "markers", "markers", "struct", "const0"])
         img = gen_image(rng, kind, w, h, chain, pattern)
+        if len(chain) != 1:
+            img["pred"] = None  # [null <<..>>] in a content stream is left to the operand-syntax checks
         if not chain and kind != "dct":
             img["data"] = unmark(img["data"])
         if kind == "dct" and chain == ["DCT"]:
@@ -649,7 +709,8 @@ def _compare_bmp(dr: Dict[str, Any], content: bytes) -> List[Tuple[str, str]]:
             xx = next(k for k in range(len(wr)) if r[k] != wr[k])
             txt += " first difference at row %d col %d: file %r, stored sample %r" % (yy, xx, r[xx], wr[xx])
             break
-    fails.append(("bmp_samples_%s:%s" % (mech, kind), "%dx%d %s chain=%s: %s" % (dr["w"], dr["h"], kind, dr["chain"], txt)))
+    fails.append(("bmp_samples_%s:%s" % (mech, kind), "%dx%d %s chain=%s predictor=%s: %s" % (
+        dr["w"], dr["h"], kind, dr["chain"], short(dr.get("pred"), 80), txt)))
     return fails
 
 
@@ -918,9 +979,22 @@ def _record(case: Dict[str, Any], rec, extra_see: Optional[Dict[str, Any]] = Non
     rec.count("docs_" + case["fam"])
     rec.see("output_types", case["otype"])
     for dr in case["draws"]:
-        h = chash(dr["kind"], dr["w"], dr["h"], dr["data"], dr["chain"], dr["inline"], dr.get("feat", {}))
+        h = chash(dr["kind"], dr["w"], dr["h"], dr["data"], dr["chain"], dr["inline"], dr.get("feat", {}), dr.get("pred"))
         rec.case(h, dr["kind"] == "dct" or dr["w"] * dr["h"] >= 2)
         ch = "+".join(dr["chain"]) or "none"
+        pr = dr.get("pred")
+        if pr:
+            where = "inline" if dr["inline"] else "xobj"
+            if pr["p"] == 2:
+                rec.count("predictor_tiff2_" + where)
+                rec.see("predictor_kinds", "tiff2:" + dr["kind"])
+            else:
+                rec.count("predictor_png_" + where)
+                rec.see("predictor_kinds", "png:" + dr["kind"])
+                for t in set(pr["ftypes"]):
+                    rec.see("png_row_filters", "%s:%d" % (dr["kind"], t))
+                if dr["h"] > 1 and dr["w"] != (3 if dr["kind"] == "rgb8" else 1) and any(t in (1, 3, 4) for t in pr["ftypes"]):
+                    rec.count("predictor_png_left_neighbour_rows_colors_ne_columns")
         rec.see("chains", ("inline:" if dr["inline"] else "xobj:") + ch)
         if dr["inline"]:
             rec.count("inline_images")
